@@ -3,6 +3,7 @@ package c06env
 import (
 	"fmt"
 	"sort"
+	"strings"
 
 	gno "github.com/gnolang/gno/gnovm/pkg/gnolang"
 )
@@ -35,9 +36,10 @@ func inScope(id gno.ObjectID) bool { return !id.PkgID.IsImmutablePkg() }
 //	owner-extra    an owner recorded on an object that is not singly referenced
 //	owner-stale    the recorded owner does not hold a reference to the object (or does not exist)
 //	unreachable    not reachable from a package value and not kept alive by a reference cycle
-func CheckGraph(s *Snap) string {
+func CheckGraphAll(s *Snap) []string {
+	var out []string
 	if len(s.Bad) > 0 {
-		return "VIOL:bad-key " + s.Bad[0]
+		return []string{"VIOL:bad-key " + s.Bad[0]}
 	}
 	var ids []gno.ObjectID
 	for _, id := range s.Order {
@@ -49,14 +51,15 @@ func CheckGraph(s *Snap) string {
 	for _, id := range ids {
 		o := s.Objs[id]
 		if o.Info.ID != id {
-			return fmt.Sprintf("VIOL:bad-key %s holds %s", Short(id), Short(o.Info.ID))
+			out = append(out, fmt.Sprintf("VIOL:bad-key %s holds %s", Short(id), Short(o.Info.ID)))
 		}
 		if !o.HashOK {
-			return "VIOL:hash " + Short(id)
+			out = append(out, "VIOL:hash "+Short(id))
 		}
 		for _, r := range o.Refs {
 			if !s.Exists(r) {
-				return fmt.Sprintf("VIOL:dangling %s->%s", Short(id), Short(r))
+				out = append(out, fmt.Sprintf("VIOL:dangling %s->%s", Short(id), Short(r)))
+				continue
 			}
 			count[r]++
 		}
@@ -79,23 +82,24 @@ func CheckGraph(s *Snap) string {
 			// package values are referenced by path, not by object id:
 			// the VM pins them at ref-count 1 without an owner.
 			if o.Info.RefCount != 1 || !o.Info.OwnerID.IsZero() {
-				return fmt.Sprintf("VIOL:refcount package %s rc=%d owner=%s", Short(id), o.Info.RefCount, Short(o.Info.OwnerID))
+				out = append(out, fmt.Sprintf("VIOL:refcount package %s rc=%d owner=%s", Short(id), o.Info.RefCount, Short(o.Info.OwnerID)))
 			}
 			continue
 		}
 		if o.Info.RefCount != count[id] {
-			return fmt.Sprintf("VIOL:refcount %s rc=%d refs=%d", Short(id), o.Info.RefCount, count[id])
+			out = append(out, fmt.Sprintf("VIOL:refcount %s rc=%d refs=%d", Short(id), o.Info.RefCount, count[id]))
+			continue
 		}
 		single := o.Info.RefCount == 1 && !o.Info.IsEscaped
 		switch {
 		case single && o.Info.OwnerID.IsZero():
-			return "VIOL:owner-missing " + Short(id)
+			out = append(out, "VIOL:owner-missing "+Short(id))
 		case !single && !o.Info.OwnerID.IsZero() && o.Info.RefCount == 1:
-			return fmt.Sprintf("VIOL:owner-on-escaped %s rc=1 esc=true owner=%s", Short(id), Short(o.Info.OwnerID))
+			out = append(out, fmt.Sprintf("VIOL:owner-on-escaped %s rc=1 esc=true owner=%s", Short(id), Short(o.Info.OwnerID)))
 		case !single && !o.Info.OwnerID.IsZero():
-			return fmt.Sprintf("VIOL:owner-extra %s rc=%d esc=%v owner=%s", Short(id), o.Info.RefCount, o.Info.IsEscaped, Short(o.Info.OwnerID))
+			out = append(out, fmt.Sprintf("VIOL:owner-extra %s rc=%d esc=%v owner=%s", Short(id), o.Info.RefCount, o.Info.IsEscaped, Short(o.Info.OwnerID)))
 		case single && !holds(o.Info.OwnerID, id):
-			return fmt.Sprintf("VIOL:owner-stale %s owner=%s", Short(id), Short(o.Info.OwnerID))
+			out = append(out, fmt.Sprintf("VIOL:owner-stale %s owner=%s", Short(id), Short(o.Info.OwnerID)))
 		}
 	}
 	// reachability: from package values, or downstream of a reference cycle
@@ -140,8 +144,33 @@ func CheckGraph(s *Snap) string {
 	flood()
 	for i, id := range ids {
 		if !alive[i] {
-			return "VIOL:unreachable " + Short(id)
+			out = append(out, "VIOL:unreachable "+Short(id))
 		}
+	}
+	return out
+}
+
+// CheckGraph is the first failing clause in the canonical visiting order ("" = none).
+func CheckGraph(s *Snap) string {
+	if all := CheckGraphAll(s); len(all) > 0 {
+		return all[0]
+	}
+	return ""
+}
+
+// CheckGraphVerdict is the oracle verdict of a state: a state may fail several clauses at once, and a
+// failure of one of the two owner clauses that the unchanged tree is known to fail must not hide
+// another failure in the same state; so the first failure of any OTHER class is reported if there
+// is one, else the first failure.
+func CheckGraphVerdict(s *Snap) string {
+	all := CheckGraphAll(s)
+	for _, v := range all {
+		if !strings.HasPrefix(v, "VIOL:owner-stale ") && !strings.HasPrefix(v, "VIOL:owner-on-escaped ") {
+			return v
+		}
+	}
+	if len(all) > 0 {
+		return all[0]
 	}
 	return ""
 }
